@@ -18,8 +18,7 @@ Record node := {
   n_parent : option nat;
   n_cands : option tag;
   n_seeds : option tag;
-  n_sets : option tag;
-  n_pn : bool            (* percolated_petri_net is cached *)
+  n_sets : option tag
 }.
 
 Record edge := { e_src : nat; e_dst : nat; e_motifs : list space }.
@@ -31,12 +30,12 @@ Record config := { max_motifs : nat }.
 Inductive result :=
 | RUnit | RBool (b : bool) | RNat (k : nat) | RIds (l : list nat)
 | RRaised (e : err) | RFuel
-with err := ErrMotifLimit | ErrKey | ErrAssert.
+with err := ErrMotifLimit | ErrKey | ErrAssert | ErrLimit.
 
 Definition size (d : sd) : nat := length (sd_nodes d).
 Definition dummy_node : node :=
   {| n_space := []; n_depth := 0; n_exp := false; n_skip := false; n_parent := None;
-     n_cands := None; n_seeds := None; n_sets := None; n_pn := false |}.
+     n_cands := None; n_seeds := None; n_sets := None |}.
 Definition get (d : sd) (i : nat) : node := nth i (sd_nodes d) dummy_node.
 Definition upd_node (d : sd) (i : nat) (f : node -> node) : sd :=
   {| sd_nodes := set_nth i (f (get d i)) (sd_nodes d); sd_edges := sd_edges d |}.
@@ -55,24 +54,16 @@ Definition has_edge (d : sd) (p c : nat) : bool :=
 
 Definition set_depth (x : node) (dp : nat) : node :=
   {| n_space := n_space x; n_depth := dp; n_exp := n_exp x; n_skip := n_skip x;
-     n_parent := n_parent x; n_cands := n_cands x; n_seeds := n_seeds x; n_sets := n_sets x;
-     n_pn := n_pn x |}.
+     n_parent := n_parent x; n_cands := n_cands x; n_seeds := n_seeds x; n_sets := n_sets x |}.
 Definition set_exp (x : node) (b : bool) : node :=
   {| n_space := n_space x; n_depth := n_depth x; n_exp := b; n_skip := n_skip x;
-     n_parent := n_parent x; n_cands := n_cands x; n_seeds := n_seeds x; n_sets := n_sets x;
-     n_pn := n_pn x |}.
+     n_parent := n_parent x; n_cands := n_cands x; n_seeds := n_seeds x; n_sets := n_sets x |}.
 Definition set_skip (x : node) (b : bool) : node :=
   {| n_space := n_space x; n_depth := n_depth x; n_exp := n_exp x; n_skip := b;
-     n_parent := n_parent x; n_cands := n_cands x; n_seeds := n_seeds x; n_sets := n_sets x;
-     n_pn := n_pn x |}.
+     n_parent := n_parent x; n_cands := n_cands x; n_seeds := n_seeds x; n_sets := n_sets x |}.
 Definition clear_attr (x : node) : node :=
   {| n_space := n_space x; n_depth := n_depth x; n_exp := n_exp x; n_skip := n_skip x;
-     n_parent := n_parent x; n_cands := None; n_seeds := None; n_sets := None;
-     n_pn := n_pn x |}.
-Definition set_pn (x : node) (b : bool) : node :=
-  {| n_space := n_space x; n_depth := n_depth x; n_exp := n_exp x; n_skip := n_skip x;
-     n_parent := n_parent x; n_cands := n_cands x; n_seeds := n_seeds x; n_sets := n_sets x;
-     n_pn := b |}.
+     n_parent := n_parent x; n_cands := None; n_seeds := None; n_sets := None |}.
 
 (* _ensure_edge + _update_node_depth *)
 Fixpoint add_motif (p c : nat) (m : space) (l : list edge) : list edge :=
@@ -115,8 +106,7 @@ Definition ensure_node (N : net) (d : sd) (parent : option nat) (motif : space) 
     | None =>
         ({| sd_nodes := sd_nodes d ++
               [{| n_space := fixed; n_depth := 0; n_exp := false; n_skip := false;
-                  n_parent := parent; n_cands := None; n_seeds := None; n_sets := None;
-                  n_pn := false |}];
+                  n_parent := parent; n_cands := None; n_seeds := None; n_sets := None |}];
             sd_edges := sd_edges d |}, size d)
     end in
   match parent with
@@ -172,7 +162,7 @@ Definition expand_one (N : net) (cfg : config) (d : sd) (i : nat) : sd * result 
   let all := sort_by_key (max_traps_b N cur srcs) in
   let k := solver_len (length all) (max_motifs cfg) in
   let subs := firstn k all in
-  let d1 := upd_node d0 i (fun y => set_pn y false) in
+  let d1 := d0 in
   if Nat.eqb k (max_motifs cfg) then (d1, RRaised ErrMotifLimit) else
   (upd_node (ensure_all N d1 i subs) i (fun y => set_exp y true), RUnit).
 
@@ -380,7 +370,7 @@ Definition skip_to_minimal_t (N : net) (d : sd) (i : nat) (tape : list space) : 
   let mins := min_traps_b N (n_space x) in
   if negb (perm_of tape mins) then (d, RRaised ErrAssert) else
   let dc := upd_node d i clear_attr in
-  let d0 := if is_full (n_space x) then dc else upd_node dc i (fun y => set_pn y true) in
+  let d0 := dc in
   match tape with
   | [m] => if eqb_space m (n_space x) then (mark_expanded d0 i, RBool true)
            else let d1 := ensure_min_children N d0 i tape in
@@ -463,10 +453,96 @@ Definition expand_min (fuel : nat) (N : net) (cfg : config) (d : sd) (start : op
   let s := match start with Some s => s | None => 0 end in
   let sp := n_space (get d s) in
   if negb (perm_of tape (min_traps_b N sp)) then (d, RRaised ErrAssert) else
-  let d0 := if is_full sp then d else upd_node d s (fun y => set_pn y true) in
+  let d0 := d in
   min_loop fuel N cfg size_limit skip tape d0 [s] tape [(s, None)].
 
 (* ---------------- operations and runs ---------------- *)
+Definition set_cands (x : node) (c : option tag) : node :=
+  {| n_space := n_space x; n_depth := n_depth x; n_exp := n_exp x; n_skip := n_skip x;
+     n_parent := n_parent x; n_cands := c; n_seeds := n_seeds x; n_sets := n_sets x |}.
+Definition set_seeds (x : node) (c : option tag) : node :=
+  {| n_space := n_space x; n_depth := n_depth x; n_exp := n_exp x; n_skip := n_skip x;
+     n_parent := n_parent x; n_cands := n_cands x; n_seeds := c; n_sets := n_sets x |}.
+Definition set_sets (x : node) (c : option tag) : node :=
+  {| n_space := n_space x; n_depth := n_depth x; n_exp := n_exp x; n_skip := n_skip x;
+     n_parent := n_parent x; n_cands := n_cands x; n_seeds := n_seeds x; n_sets := c |}.
+
+(* reclaim_node_data: drops candidates where seeds are known (percolated_* caches are not modelled) *)
+Definition reclaim (d : sd) : sd :=
+  {| sd_nodes := map (fun x => match n_seeds x with Some _ => set_cands x None | None => x end) (sd_nodes d);
+     sd_edges := sd_edges d |}.
+
+(* ---------------- attractor queries: cache bookkeeping only ----------------
+   What a query returns depends on clingo / simulation; the model tracks which cache
+   fields are written and against which successor list (the ghost tag).  The tape is
+   the observed outcome of the real call. *)
+Definition first_motifs (d : sd) (i : nat) : list space :=
+  map (fun e => hd [] (e_motifs e)) (filter (fun e => Nat.eqb (e_src e) i) (sd_edges d)).
+Definition cur_tag (d : sd) (i : nat) : tag :=
+  {| t_motifs := if n_exp (get d i) then first_motifs d i else []; t_skip := n_skip (get d i) |}.
+Definition pseudo_minimal (d : sd) (i : nat) : bool := negb (n_exp (get d i)) || is_minimal d i.
+
+Inductive outcome := OutRaised | OutLen (k : nat) (sets_known : bool).
+
+(* node_attractor_candidates(i, compute=True) *)
+Definition q_cands (d : sd) (i : nat) (o : outcome) : sd * result :=
+  let x := get d i in
+  match n_cands x, n_seeds x with
+  | None, Some _ => (d, RUnit)
+  | Some _, _ => (d, RUnit)
+  | None, None =>
+      match o with
+      | OutRaised => (d, RRaised ErrLimit)
+      | OutLen k _ =>
+          let t := cur_tag d i in
+          let d1 := upd_node d i (fun y => set_cands y (Some t)) in
+          if Nat.eqb k 0 || (pseudo_minimal d i && Nat.eqb k 1)
+          then (upd_node d1 i (fun y => set_seeds y (Some t)), RUnit)
+          else (d1, RUnit)
+      end
+  end.
+
+(* node_attractor_seeds(i, compute=True, symbolic_fallback); oc = outcome of the candidate
+   call (if one is made), os = outcome of the seed computation *)
+Definition q_seeds (d : sd) (i : nat) (fallback : bool) (oc os : outcome) : sd * result :=
+  let x := get d i in
+  match n_seeds x with
+  | Some _ => (d, RUnit)
+  | None =>
+      let '(d1, r) := q_cands d i oc in
+      match r with
+      | RRaised _ =>
+          if fallback then
+            let t := cur_tag d1 i in
+            (upd_node (upd_node d1 i (fun y => set_seeds y (Some t))) i (fun y => set_sets y (Some t)), RUnit)
+          else (d1, r)
+      | _ =>
+          match n_seeds (get d1 i) with
+          | Some _ => (d1, RUnit)
+          | None =>
+              let t := cur_tag d1 i in
+              let d2 := upd_node d1 i (fun y => set_seeds y (Some t)) in
+              match os with
+              | OutLen _ true => (upd_node d2 i (fun y => set_sets y (Some t)), RUnit)
+              | _ => (upd_node d2 i (fun y => set_sets y None), RUnit)
+              end
+          end
+      end
+  end.
+
+(* node_attractor_sets(i, compute=True) *)
+Definition q_sets (d : sd) (i : nat) (oc os : outcome) : sd * result :=
+  let x := get d i in
+  match n_sets x with
+  | Some _ => (d, RUnit)
+  | None =>
+      let '(d1, r) := q_seeds d i false oc os in
+      match r with
+      | RRaised _ => (d1, r)
+      | _ => (upd_node d1 i (fun y => set_sets y (Some (cur_tag d1 i))), RUnit)
+      end
+  end.
+
 Inductive op :=
 | OExpandNode (i : nat)
 | OBfs (start lvl size : option nat)
@@ -476,18 +552,10 @@ Inductive op :=
 | OSkipToMin (i : nat) (tape : list space)
 | OSkipRemaining (tape : list space)
 | OReclaim
-| OPickle.
-
-Definition reclaim (d : sd) : sd :=
-  {| sd_nodes := map (fun x =>
-        let y := set_pn x false in
-        match n_seeds y with
-        | Some _ => {| n_space := n_space y; n_depth := n_depth y; n_exp := n_exp y;
-                       n_skip := n_skip y; n_parent := n_parent y; n_cands := None;
-                       n_seeds := n_seeds y; n_sets := n_sets y; n_pn := false |}
-        | None => y
-        end) (sd_nodes d);
-     sd_edges := sd_edges d |}.
+| OPickle
+| OCands (i : nat) (o : outcome)
+| OSeeds (i : nat) (fallback : bool) (oc os : outcome)
+| OSets (i : nat) (oc os : outcome).
 
 (* ids outside the diagram raise KeyError in the code; histories with such ids are
    outside the correspondence domain (the harness never generates them) *)
@@ -509,6 +577,9 @@ Definition step (fuel : nat) (N : net) (cfg : config) (d : sd) (o : op) : sd * r
   | OSkipRemaining t => skip_remaining N d t
   | OReclaim => (reclaim d, RUnit)
   | OPickle => (d, RUnit)
+  | OCands i o => if Nat.ltb i (size d) then q_cands d i o else (d, RRaised ErrKey)
+  | OSeeds i f oc os => if Nat.ltb i (size d) then q_seeds d i f oc os else (d, RRaised ErrKey)
+  | OSets i oc os => if Nat.ltb i (size d) then q_sets d i oc os else (d, RRaised ErrKey)
   end.
 
 Fixpoint run (fuel : nat) (N : net) (cfg : config) (d : sd) (h : list op)
